@@ -576,7 +576,7 @@ class EvalMixin:
 
     def ev_BoolOp(self, e, st):
         is_and = isinstance(e.op, ast.And)
-        if not any(has_impure_call(v) for v in e.values[1:]):
+        if st.spec or not any(has_impure_call(v) for v in e.values[1:]):
             # pure: build And/Or, guarding the safety obligations of later operands
             conds = []
             cur = st
@@ -626,7 +626,7 @@ class EvalMixin:
             if z3.is_false(cond):
                 yield from self.ev(e.orelse, st1)
                 continue
-            if not has_impure_call(e.body) and not has_impure_call(e.orelse):
+            if st1.spec or (not has_impure_call(e.body) and not has_impure_call(e.orelse)):
                 ga, gb = st1.fork(), st1.fork()
                 ga.pc.append(cond); gb.pc.append(z3.Not(cond))
                 a = self.lift(self.ev1(e.body, ga)); b = self.lift(self.ev1(e.orelse, gb))
@@ -909,51 +909,60 @@ class EvalMixin:
                 if z3.is_int_value(stp) and stp.as_long() > 1:
                     s = stp.as_long()
                     n = z3.If(hi > lo, (hi - lo + s - 1) / s, 0)
-                    return n, (lambda i: SV(INT, lo + s * i))
+                    return n, (lambda i, s_=None: SV(INT, lo + s * i))
                 raise OutOfSubset('range step')
             if stp.as_long() == 1:
                 n = z3.If(hi > lo, hi - lo, 0)
-                return n, (lambda i: SV(INT, lo + i))
+                return n, (lambda i, s_=None: SV(INT, lo + i))
             n = z3.If(lo > hi, lo - hi, 0)
-            return n, (lambda i: SV(INT, lo - i))
+            return n, (lambda i, s_=None: SV(INT, lo - i))
         if isinstance(it, TupV):
             t = None
             for x in it.items:
                 t = join_types(t, type_of(self.lift(x)))
             items = it.items
 
-            def el(i):
+            def el(i, s_=None):
                 iv = z3.simplify(i) if not isinstance(i, int) else z3.IntVal(i)
                 if z3.is_int_value(iv):
                     return items[iv.as_long()]
                 res = pack(st, self.lift(items[-1]), t)
                 for q in range(len(items) - 2, -1, -1):
                     res = z3.If(iv == q, pack(st, self.lift(items[q]), t), res)
-                return unpack(st, res, t)
+                return unpack(s_ or st, res, t)
             return z3.IntVal(len(items)), el
+        if isinstance(it, Ref) and isinstance(st.store[it.id], ObjC):
+            # user-defined iterable: inline its __iter__ (e.g. DataContainer.__iter__ returns self._data.__iter__())
+            fi = self.find_method_for(st.store[it.id].cls, '__iter__')
+            if fi is None:
+                raise OutOfSubset('object is not iterable')
+            outs = list(self.call_fn(fi, [it], {}, st, node))
+            if len(outs) != 1:
+                raise OutOfSubset('__iter__ forks')
+            return self.iter_domain(outs[0][0], st, node)
         if isinstance(it, Ref):
             c = st.store[it.id]
             if isinstance(c, ListC):
-                return c.n, (lambda i: unpack(st, z3.Select(c.arr, i), c.t.args[0], parent=(it, i)))
+                return c.n, (lambda i, s_=None: unpack(s_ or st, z3.Select(c.arr, i), c.t.args[0], parent=(it, i)))
             if isinstance(c, (DictC, SetC)):
-                return c.n, (lambda i: unpack(st, z3.Select(c.keys, i), c.t.args[0]))
+                return c.n, (lambda i, s_=None: unpack(s_ or st, z3.Select(c.keys, i), c.t.args[0]))
         if isinstance(it, EnumV):
             n, el = self.iter_domain(it.inner, st, node)
-            return n, (lambda i: TupV([SV(INT, i + it.start if not isinstance(i, int) else z3.IntVal(i) + it.start), el(i)]))
+            return n, (lambda i, s_=None: TupV([SV(INT, i + it.start if not isinstance(i, int) else z3.IntVal(i) + it.start), el(i, s_)]))
         if isinstance(it, ZipV):
             doms = [self.iter_domain(x, st, node) for x in it.inners]
             n = doms[0][0]
             for d in doms[1:]:
                 n = z3.If(d[0] < n, d[0], n)
-            return n, (lambda i: TupV([d[1](i) for d in doms]))
+            return n, (lambda i, s_=None: TupV([d[1](i, s_) for d in doms]))
         if isinstance(it, ItemsV):
             c = st.store[it.ref.id]
-            return c.n, (lambda i: TupV([unpack(st, z3.Select(c.keys, i), c.t.args[0]),
-                                         unpack(st, z3.Select(c.val, z3.Select(c.keys, i)), c.t.args[1],
+            return c.n, (lambda i, s_=None: TupV([unpack(s_ or st, z3.Select(c.keys, i), c.t.args[0]),
+                                         unpack(s_ or st, z3.Select(c.val, z3.Select(c.keys, i)), c.t.args[1],
                                                 parent=(it.ref, z3.Select(c.keys, i)))]))
         if isinstance(it, ValuesV):
             c = st.store[it.ref.id]
-            return c.n, (lambda i: unpack(st, z3.Select(c.val, z3.Select(c.keys, i)), c.t.args[1],
+            return c.n, (lambda i, s_=None: unpack(s_ or st, z3.Select(c.val, z3.Select(c.keys, i)), c.t.args[1],
                                           parent=(it.ref, z3.Select(c.keys, i))))
         raise OutOfSubset('iteration over %r' % (it,))
 
